@@ -99,6 +99,66 @@ def oracle_pair(w, frames, leaves, i, j, pt, fi=None, fj=None):
     return None
 
 
+def mixed_dim_probe(ctx, rng, oracle_bad):
+    """pipelines whose frames have different numbers of axes (2-D -> 1-D -> 2-D and 2-D -> 2-D -> 1-D): transform() between any two
+    frames, frames given by name or object, with and without units, must evaluate as get_transform does"""
+    import astropy.units as u
+    from astropy import coordinates as coord
+    from astropy.modeling import models
+    from gwcs import wcs, coordinate_frames as cf
+    for k in range(6 if ctx.quick else 40):
+        a, b, c = rng.choice([1, 2, -3]), rng.choice([0.5, 2.0]), rng.randint(1, 9)
+        det = cf.Frame2D(name="detector", unit=(u.pix, u.pix))
+        if k % 2 == 0:
+            slit = cf.CoordinateFrame(1, ("SPATIAL",), (0,), unit=(u.arcsec,), name="slit", axes_names=("s",))
+            sky = cf.Frame2D(name="sky", unit=(u.deg, u.deg))
+            t1 = models.Mapping((0,), n_inputs=2) | models.Scale(a)                 # (x, y) -> a x
+            t2 = models.Mapping((0, 0)) | (models.Scale(b) & models.Shift(c))      # s -> (b s, s + c)
+            fr = [det, slit, sky]
+            ref1 = lambda x, y: (a * x,)
+            ref2 = lambda s_: (b * s_, s_ + c)
+        else:
+            foc = cf.Frame2D(name="focal", unit=(u.mm, u.mm))
+            wave = cf.SpectralFrame(axes_order=(0,), unit=(u.um,), name="wave")
+            t1 = models.Scale(a) & models.Shift(c)
+            t2 = models.Mapping((1,), n_inputs=2) | models.Scale(b)                 # (u, v) -> b v
+            fr = [det, foc, wave]
+            ref1 = lambda x, y: (a * x, y + c)
+            ref2 = lambda p, q: (b * q,)
+        w = wcs.WCS([(fr[0], t1), (fr[1], t2), (fr[2], None)])
+        xs, ys = np.array([1.0, 2.0, 5.0]), np.array([3.0, 4.0, 7.0])
+        for (i, j) in ((0, 1), (0, 2), (1, 2)):
+            for pts, lab in (((xs, ys), "array"), ((float(xs[0]), float(ys[0])), "scalar")):
+                args = pts if i == 0 else tuple(np.asarray(v) for v in ref1(*pts))
+                want = ref1(*args) if (i, j) == (0, 1) else (ref2(*ref1(*args)) if (i, j) == (0, 2) else ref2(*args))
+                for by in ("name", "object"):
+                    fa, fb = (fr[i].name, fr[j].name) if by == "name" else (fr[i], fr[j])
+                    for wu in (False, True, "quantity-in"):
+                        rec = dict(frames=[f.name for f in fr], naxes=[f.naxes for f in fr], call=f"transform({fr[i].name}, {fr[j].name}) by {by}",
+                                   with_units=wu, inputs=lab)
+                        ctx.case(key=("mixdim", k, i, j, lab, by, wu), nontrivial=True, kind="transform/mixed-dimension", sample=rec)
+                        try:
+                            if wu == "quantity-in":      # inputs as quantities in the units of the from-frame
+                                got = w.transform(fa, fb, *[np.asarray(v) * un for v, un in zip(args, fr[i].unit)])
+                            else:
+                                got = w.transform(fa, fb, *args, with_units=wu)
+                        except Exception as e:  # noqa
+                            oracle_bad.append((f"{rec['call']} (with_units={wu}, {lab} input; frames have {rec['naxes']} axes) raised "
+                                               f"{type(e).__name__}: {str(e)[:80]}", rec))
+                            continue
+                        got = got if isinstance(got, tuple) else (got,)
+                        vals = []
+                        for g in got:
+                            if hasattr(g, "spherical"):
+                                vals += [np.asarray(g.spherical.lon.deg), np.asarray(g.spherical.lat.deg)]
+                            else:
+                                vals.append(np.asarray(getattr(g, "value", g), dtype=float))
+                        ok = len(vals) == len(want) and all(np.shape(v) == np.shape(np.asarray(x_)) and np.allclose(v, x_) for v, x_ in zip(vals, want))
+                        if not ok:
+                            oracle_bad.append((f"{rec['call']} (with_units={wu}, {lab} input; frames have {rec['naxes']} axes) gives "
+                                               f"{[np.asarray(v).tolist() for v in vals]}, the steps compose to {[np.asarray(x_).tolist() for x_ in want]}", rec))
+
+
 PINS = ["gwcs/wcs.py::WCS.fix_inputs", "gwcs/wcs.py::WCS.transform", "gwcs/wcs.py::WCS.__call__"]
 
 
@@ -240,6 +300,7 @@ def run(ctx):
                      sample={"dim": n, "steps": k, "fix_inputs": fixed, "point": rest_pt, "expected": ints})
             terms.append(f"({cw}, {ctab}, (fun w : wcs => {call}), {gzl(rest_pt)}, {coq_expected(exp, ints)})")
             meta.append((("fix", fixed), rest_pt, exp[0]))
+    mixed_dim_probe(ctx, rng, oracle_bad)
     checker = "(fun c => match c with (w, tab, q, x, e) => agrees tab (q w) x e end)"
     failing = None
     if gen_src is not None:
